@@ -299,9 +299,14 @@ Definition spec_run (ss : sstate) (pre : obs) (now : Z) (fe0 : fetch) (fl : faul
                               || (f_twrite fl && f_swrite fl && negb (is_nil may_mats))
                               || memN (k_mat k) (mats (o_live post)))
                     (filter (fun k => memN (k_mat k) (mats (o_live pre))) T) in
+        (* S5: "if neither record of a new revocation can be persisted ... validation fails closed": a run that
+           accepts a presented valid revocation of a trusted anchor and replaces NEITHER file leaves the live set
+           EMPTY — not merely without the revoked key: the disk still says Valid, and a non-empty set is what
+           lets the next refresh republish from that disk before its fetch *)
+        let s_failclosed := negb (is_nil renames) || is_nil revs || is_nil (o_live post) in
         (* the revocation counts as persisted as soon as one of the two files was replaced in this run *)
         let rev_recorded := if is_nil renames then [] else rev_mats in
-        (unreadable_ok && s_immediate && s_perm && s_revonly && s_new && s_missing && s_record && s_keep,
+        (unreadable_ok && s_immediate && s_perm && s_revonly && s_new && s_missing && s_record && s_keep && s_failclosed,
          mk_ss cfg (ss_record ss) streak' prom (rev_recorded ++ ss_rev ss) (ss_rev ss) rev_mats absent'
                (ss_streak ss) (ss_absent ss) renames)
     end
